@@ -338,10 +338,14 @@ def cmp_life(prop, case, impl, model):
     if prop in ('C10', 'C09'):
         mr = model.get('res', 'any')
         irn = ','.join(x for x in ir.split(',') if not x.startswith('closenow-slow'))
-        if mr != 'any' and irn != mr and not out:
+        # a Write whose context was ALREADY cancelled when it was called never blocks on this transport: the library may fail it (and
+        # close), or complete it before its timeout goroutine looks at the context — then the write succeeded and the property
+        # asks nothing more of that context (both outcomes are executions of the library on the unchanged tree)
+        raced = scen == 'cancel-before-write' and irn == 'ok'
+        if mr != 'any' and irn != mr and not out and not raced:
             out.append(('violation', 'life:results:' + scen, 'call results %s, specification %s' % (ir, mr)))
         mc, ic = model.get('closed', 'any'), impl.get('closed', '-')
-        if mc != 'any' and ic not in ('-', 'any') and ic != mc and not out:
+        if mc != 'any' and ic not in ('-', 'any') and ic != mc and not out and not raced:
             out.append(('violation', 'life:connection-state:' + scen, 'connection closed afterwards: %s, specification %s' % (ic, mc)))
         if impl.get('arm') != 'ok':
             out.append(('violation', 'life:arming:' + scen, 'hook trace: ' + str(impl.get('arm'))))
